@@ -114,16 +114,28 @@ def layer(draw):
             loc = "local unused = self, "
         src = "{" + loc + "[k]" + ("+" if plus else "") + ": " + body + " for k in [" + ", ".join(JS(n) for n in names) + "]}"
         return src, {"fields": {n: ":" for n in names}, "removed": [], "features": {"comp"} | feats | ({"plus"} if plus else set())}
-    base = "{" + ", ".join(f"{n}: {draw(st.integers(1, 9))}" for n in names) + "}"
+    # objects returned by the library are, by the library's definitions, comprehensions over the *visible* fields of their argument:
+    # hidden fields do not survive and every surviving field has default visibility (a `:::` of the argument is not inherited)
+    bvis = {n: draw(st.sampled_from([":", ":", "::", ":::"])) for n in names}
+    base = "{" + ", ".join(f"{n}{bvis[n]} {draw(st.integers(1, 9))}" for n in names) + "}"
+    if draw(st.integers(0, 3)) == 0:
+        # the argument is itself a chain: visibility inherited inside the argument
+        n0 = draw(st.sampled_from(names))
+        v0 = draw(st.sampled_from(["::", ":::"]))
+        base = "({" + f"{n0}{v0} 0" + "} + " + base + ")"
+        if bvis[n0] == ":":
+            bvis[n0] = v0
+    survivors = [n for n in names if bvis[n] != "::"]
+    feats = {"derived"} | ({"vis"} if any(v != ":" for v in bvis.values()) else set())
     if kind == "mergepatch":
         other = draw(st.sampled_from(POOL))
         src = f"std.mergePatch({base}, {{{other}: {draw(st.integers(1, 9))}}})"
-        fs = {n: ":" for n in names}
+        fs = {n: ":" for n in survivors}
         fs[other] = ":"
-        return src, {"fields": fs, "removed": [], "features": {"derived"}}
+        return src, {"fields": fs, "removed": [], "features": feats}
     if kind == "prune":
-        return f"std.prune({base} + {{zz_null: null}})", {"fields": {n: ":" for n in names}, "removed": [], "features": {"derived"}}
-    return f"std.mapWithKey(function(k, v) v + 1, {base})", {"fields": {n: ":" for n in names}, "removed": [], "features": {"derived"}}
+        return f"std.prune({base} + {{zz_null: null}})", {"fields": {n: ":" for n in survivors}, "removed": [], "features": feats}
+    return f"std.mapWithKey(function(k, v) v + 1, {base})", {"fields": {n: ":" for n in survivors}, "removed": [], "features": feats}
 
 
 def flatten(models):
